@@ -1007,6 +1007,18 @@ def inline_block_temporaries(func, known_locals):
                     cover[id(l)] = st
         if not ok or len(cover) != len(loads):
             continue
+        # a value assigned inside a loop may come round again: every read
+        # inside that loop must then be fed by an assignment inside it
+        loops = [x for x in ast.walk(func) if isinstance(
+            x, (ast.For, ast.AsyncFor, ast.While))]
+        for lp in loops:
+            inside = {id(y) for y in ast.walk(lp)}
+            if any(id(st) in inside for _, _, st in sites):
+                for l in loads:
+                    if id(l) in inside and id(cover[id(l)]) not in inside:
+                        ok = False
+        if not ok:
+            continue
         for lst, i, st in sorted(sites, key=lambda s: -s[1]):
             mine = [l for l in loads if cover[id(l)] is st]
 
